@@ -23,6 +23,8 @@ pub struct GenCfg {
     pub sets: bool,
     pub bytes_ops: bool,
     pub chains: bool,
+    /// allow (rarely) schemes with 60..140 filler fields
+    pub wide: bool,
 }
 
 impl GenCfg {
@@ -37,6 +39,7 @@ impl GenCfg {
             sets: false,
             bytes_ops: false,
             chains: true,
+            wide: true,
         }
     }
     pub fn indexing() -> Self {
@@ -253,9 +256,33 @@ pub fn gen_val(ch: &mut Choices<'_>, t: &MType, h: &Hints) -> MVal {
     }
 }
 
+pub const FILLER_PREFIX: &str = "zw_";
+
+pub fn is_filler(name: &str) -> bool {
+    name.starts_with(FILLER_PREFIX)
+}
+
+fn filler_value(t: &MType, i: usize) -> MVal {
+    match t {
+        MType::Int => MVal::Int(i as i64),
+        MType::Bytes => MVal::Bytes(format!("w{i}").into_bytes()),
+        MType::Bool => MVal::Bool(i % 2 == 0),
+        MType::Ip => MVal::Ip(v4(10, 9, (i >> 8) as u8, i as u8)),
+        MType::Array(e) => MVal::Array((**e).clone(), vec![MVal::Int(i as i64)]),
+        MType::Map(e) => MVal::Map((**e).clone(), Default::default()),
+    }
+}
+
 pub fn gen_ctx(ch: &mut Choices<'_>, r: &Recipe, h: &Hints) -> MCtx {
     let mut vals = Vec::new();
-    for f in &r.fields {
+    let mut filler_mask: Option<u64> = None;
+    for (i, f) in r.fields.iter().enumerate() {
+        if is_filler(&f.name) {
+            // one draw decides the presence of all fillers; values are fixed per field
+            let mask = *filler_mask.get_or_insert_with(|| ch.u64());
+            vals.push(if mask >> (i % 64) & 1 == 1 { Some(filler_value(&f.ty, i)) } else { None });
+            continue;
+        }
         if f.optional && ch.chance(1, 3) {
             vals.push(None);
         } else {
@@ -333,6 +360,7 @@ impl<'c, 'd> Gen<'c, 'd> {
             }
             self.counter += 1;
             let bad = s.starts_with("not")
+                || is_filler(&s)
                 || self.r.field(&s).is_some()
                 || funcs::sig(&s).is_some()
                 || s == "concat"
@@ -949,6 +977,27 @@ impl<'c, 'd> Gen<'c, 'd> {
         if self.r.fields.is_empty() {
             let name = self.fresh_name();
             self.r.fields.push(FieldSpec { name, ty: MType::Bool, optional: true });
+        }
+        // wide schemes: field indexes beyond 64 / 128 (per-field bookkeeping
+        // thresholds).  Fillers cost one draw in total and one per context.
+        if self.cfg.wide && self.ch.chance(1, 12) {
+            let n = 58 + self.ch.draw(80) as usize;
+            let mut i = 0usize;
+            while self.r.fields.iter().filter(|f| is_filler(&f.name)).count() < n {
+                let name = format!("{FILLER_PREFIX}{i:03}");
+                i += 1;
+                if self.r.field(&name).is_some() {
+                    continue;
+                }
+                let ty = match i % 5 {
+                    0 => MType::Int,
+                    1 => MType::Bytes,
+                    2 => MType::Bool,
+                    3 => MType::Ip,
+                    _ => MType::array(MType::Int),
+                };
+                self.r.fields.push(FieldSpec { name, ty, optional: true });
+            }
         }
         self.r.nil_ne = !self.ch.chance(1, 3);
         // rotate the registration order so field / function / list indexes vary
